@@ -11,7 +11,8 @@ RULE = ("A case is (token, key, credential form hex/bytes, device nonce, scenari
         "the unauthenticated 8 header bytes (containment only)), followed by a refresh. Part 'enumerated' sweeps every "
         "listed alteration in both scenarios; 'random_keys' repeats random alterations under fresh random "
         "credentials. Distinct = distinct (credentials, scenario, alteration); non-trivial = a handshake reply "
-        "crossed the wire or was withheld.")
+        "crossed the wire or was withheld."
+        " Later additions: genuine replies that are late or follow lost requests (must succeed), a status report pushed right behind the reply (must succeed and the report must be readable), a refused token followed by a hang-up and then the genuine credentials, a reset / FIN instead of a reply, printable raw keys and tokens.")
 ASSUMPTIONS = [
     "RefDevice issues reply = AES-256-CBC(key, nonce) || SHA-256(nonce), session key = nonce XOR key (vendor scheme)",
     "flips in the 8 header/counter bytes are unauthenticated by protocol design: only containment is asserted there",
